@@ -118,32 +118,65 @@ def validateWsComment (rules : List Rule) : List Err :=
       else none
     else none
 
-/-- `left_recursion::check_expr`; `trace` is the chain of rules entered, its head the rule under test. -/
-def checkExpr (extras : Bool) (rules : List Rule) : Nat → Expr → List String → Bool
-  | 0, _, _ => false
-  | fuel + 1, e, trace =>
-    match e with
-    | .ident other =>
-      if trace.head? = some other then true
-      else if !trace.contains other then
+/-- whether implicit `WHITESPACE`/`COMMENT` skips run inside rule `name` when it is entered from a
+place where they do (`skips`) or do not run (`skips_inside`). -/
+def skipsInside (rules : List Rule) (name : String) (skips : Bool) : Bool :=
+  if name = "WHITESPACE" ∨ name = "COMMENT" then false else
+  match (rules.find? (·.name = name)).map (·.ty) with
+  | some RuleType.atomic | some RuleType.compound => false
+  | some RuleType.nonAtomic => true
+  | _ => skips
+
+/-- `left_recursion::check_expr` (after the fixes). `trace` is the chain of (rule, skipping inside it)
+pairs entered, its head the pair under test; only a return to the head pair is a recursion. Where the
+left operand of a sequence may match nothing and skipping is on, the implicit `WHITESPACE` and
+`COMMENT` calls are entered too. (The memo set of the real code does not change the result.) -/
+def checkExpr (extras : Bool) (rules : List Rule) : Nat → Expr → List (String × Bool) → Bool → Bool
+  | 0, _, _, _ => false
+  | fuel + 1, e, trace, skips =>
+    let enter := fun (other : String) =>
+      let key := (other, skipsInside rules other skips)
+      if trace.head? = some key then true
+      else if !trace.contains key then
         match lookup rules other with
-        | some body => checkExpr extras rules fuel body (trace ++ [other])
+        | some body => checkExpr extras rules fuel body (trace ++ [key]) key.2
         | none => false
       else false
+    let last := (trace.getLast?.map (·.1)).toList
+    -- the expression may match without consuming input
+    let mayEmpty := fun (x : Expr) =>
+      isNonFailing rules (fuelFor rules x) x last || isNonProgressing rules (fuelFor rules x) x last
+    -- the implicit skip, where skipping is on: `WHITESPACE` and `COMMENT` are entered at this position
+    let implicitSkip := fun (_ : Unit) =>
+      skips && ((lookup rules "WHITESPACE").isSome && enter "WHITESPACE" ||
+                (lookup rules "COMMENT").isSome && enter "COMMENT")
+    match e with
+    | .ident other => enter other
     | .seq lhs rhs =>
-      let last := trace.getLast?.toList
-      if isNonFailing rules (fuelFor rules lhs) lhs last || isNonProgressing rules (fuelFor rules lhs) lhs last then
-        checkExpr extras rules fuel lhs trace || checkExpr extras rules fuel rhs trace
-      else checkExpr extras rules fuel lhs trace
-    | .choice lhs rhs => checkExpr extras rules fuel lhs trace || checkExpr extras rules fuel rhs trace
-    | .rep e | .repOnce e | .opt e | .posPred e | .negPred e | .push e => checkExpr extras rules fuel e trace
-    | .repExact e _ | .repMin e _ | .repMax e _ | .repMinMax e _ _ => checkExpr extras rules fuel e trace
-    | .nodeTag e _ => if extras then checkExpr extras rules fuel e trace else false
+      if mayEmpty lhs then
+        checkExpr extras rules fuel lhs trace skips || implicitSkip () || checkExpr extras rules fuel rhs trace skips
+      else checkExpr extras rules fuel lhs trace skips
+    | .choice lhs rhs => checkExpr extras rules fuel lhs trace skips || checkExpr extras rules fuel rhs trace skips
+    | .rep e | .repOnce e | .opt e | .posPred e | .negPred e | .push e => checkExpr extras rules fuel e trace skips
+    | .repMin e _ => checkExpr extras rules fuel e trace skips
+    -- bounded repetitions are sequences of copies with implicit skips between them: the skip after the
+    -- first copy is at the same position when that copy may match nothing
+    | .repExact e n => checkExpr extras rules fuel e trace skips || (decide (2 ≤ n) && mayEmpty e && implicitSkip ())
+    | .repMax e n => checkExpr extras rules fuel e trace skips || (decide (2 ≤ n) && implicitSkip ())
+    | .repMinMax e lo hi =>
+      checkExpr extras rules fuel e trace skips || (decide (2 ≤ hi) && (lo == 0 || mayEmpty e) && implicitSkip ())
+    | .nodeTag e _ => if extras then checkExpr extras rules fuel e trace skips else false
     | _ => false
 
+/-- a rule can start a parse (skipping on unless the rule says otherwise) and can be called from an
+atomic rule (skipping off unless the rule says otherwise): both pairs are searched. -/
 def leftRecursion (extras : Bool) (rules : List Rule) : List Err :=
   rules.filterMap fun r =>
-    if checkExpr extras rules (rulesSize rules + r.expr.size + 2) r.expr [r.name] then some (.leftRecursive r.name) else none
+    let fuel := 2 * rulesSize rules + r.expr.size + 2
+    let m1 := skipsInside rules r.name true
+    let m2 := skipsInside rules r.name false
+    if checkExpr extras rules fuel r.expr [(r.name, m1)] m1 || checkExpr extras rules fuel r.expr [(r.name, m2)] m2
+    then some (.leftRecursive r.name) else none
 
 /-- the validator's `BUILTINS`. -/
 def isBuiltin (n : String) : Bool :=
